@@ -155,6 +155,25 @@ def a4(ctx, prog):
             cells.append(((a - pad + 1 - P if j else med + 1, a - pad),))
         res = prove(lambda cell: it2.call("mi_good_size", [AV(cell[0][0], cell[0][1])]), cells, post, budget=2000)
         run_ob(ctx, R, f.where(), "page size %d: n in (kP-P, kP] ↦ kP on boundary pages k (relational law checked on sample pages; not a ∀ proof)" % P, "C16.A4:page:%d" % P, res)
+    # ∀ n > MI_MEDIUM_OBJ_SIZE_MAX (n = B·2^17 + v, B >= 1): mi_good_size(n) = n + pad rounded up to the page size
+    K = 17
+    assert (1 << K) > med
+    for P in (4096, 16384, 65536):
+        it3 = Interp(prog)
+        it3.opaque["_mi_os_page_size"] = lambda args, P=P: AV(P)
+        def ev(cell):
+            x = Based(K, AV(cell[0][0], cell[0][1], 64, True))
+            return it3.call("mi_good_size", [x])
+        def post(cell, r, P=P):
+            if not isinstance(r, Based) or r.dbase != 0 or r.off.lo != r.off.hi:
+                return None
+            lo, hi = cell[0]
+            v = r.off.lo
+            return True if (v % P == 0 and v >= hi + pad and v - (lo + pad) < P) else (False if v < lo + pad else None)
+        cells = [((j * P + 1 - pad if j * P + 1 - pad >= 0 else 0, (j + 1) * P - pad),) for j in range(0, (1 << K) // P)] + [((0, 0),)] if pad == 0 else \
+                [((max(0, j * P + 1 - pad), (j + 1) * P - pad),) for j in range(0, (1 << K) // P)]
+        res = prove(ev, cells, post, budget=20000)
+        run_ob(ctx, R, f.where(), "∀ n = B·2^%d + v (B >= 1, so n > MI_MEDIUM_OBJ_SIZE_MAX), page size %d: mi_good_size(n) is the multiple of the page size at or above n+pad" % (K, P), "C16.A4:forall:%d" % P, res)
     g = prog.fn("mi_good_size")
     ok = any(rl.is_call(g, g.strip(g.nodes[r]["val"]), "_mi_align_up") for r in g.all(kind="ReturnStmt")) and any(g.mentions_call(r, "mi_bin") and g.mentions_call(r, "_mi_bin_size") for r in g.all(kind="ReturnStmt"))
     ctx.check(R, ok, g.where(), "mi_good_size = _mi_bin_size(mi_bin(size+pad)) or _mi_align_up(size+pad, page) — the same bin function and table as the allocator", key="C16.A4:shape")
@@ -163,6 +182,66 @@ def a4(ctx, prog):
             u = prog.fn(user)
             ctx.check(R, any(True for _ in u.calls(("mi_bin", "_mi_bin", "mi_page_bin"))) or any(True for _ in u.calls("mi_page_queue")), u.where(), "%s selects queues with the same mi_bin" % user, key="C16.A4:sibling:%s" % user)
     ctx.floor(R, 38)
+
+
+def a5(ctx, prog):
+    R = ctx.rule("C16.A5", "direct small-page table: for every produced small bin the index range written by mi_heap_queue_first_update is exactly {w : mi_bin(8w) = bin}, "
+                           "and the lookup indexes it with the same word size (finite: all 129 word sizes evaluated with the analyser's evaluator)")
+    T = bin_table(prog)
+    small = prog.const("MI_SMALL_SIZE_MAX")
+    direct = prog.const("MI_PAGES_DIRECT")
+    it = Interp(prog)
+    f = prog.fn("mi_heap_queue_first_update")
+    # structure of the start-slot search (the loop is modelled, so its shape is checked first)
+    loops = [l for l in f.all(kind="WhileStmt")]
+    ok = len(loops) == 1
+    if ok:
+        cond = f.nodes[loops[0]]["cond"]
+        cs = rl.conjuncts(f, cond)
+        txt = [rl.canon(f, c).replace(" ", "") for c in cs]
+        ok = len(cs) == 2 and any("mi_bin(prev->block_size)" in t and "==" in t for t in txt) and any("prev" in t and "pages[0]" in t and ("<" in t or ">" in t) for t in txt)
+        body = [x for x in f.walk(f.nodes[loops[0]]["body"]) if f.nodes[x]["k"] == "UnaryOperator" and f.nodes[x]["op"] in ("post--", "pre--")]
+        ok = ok and len(body) == 1
+    ctx.check(R, ok, f.where(), "start-slot search: while (bin == mi_bin(prev->block_size) && prev > &heap->pages[0]) prev--", key="C16.A5:loop")
+    st = [dd for _, dd in rl.local_decl(f, lambda dd: dd["n"] == "start")]
+    sdefs = [rl.canon(f, rhs).replace(" ", "") for a, rhs, op in f.var_defs(st[0]["d"]) if rhs is not None] if st else []
+    ctx.check(R, sorted(sdefs) == sorted(["0", "(1+_mi_wsize_from_size(prev->block_size))", "idx"]), f.where(), "start ∈ {0, 1 + wsize(prev->block_size), idx}: %s" % sdefs, key="C16.A5:start")
+    fl = [l for l in f.all(kind="ForStmt")]
+    okf = len(fl) == 1 and rl.cmp_parts(f, f.nodes[fl[0]]["cond"]) and rl.cmp_parts(f, f.nodes[fl[0]]["cond"])[0] == "<="
+    ctx.check(R, bool(okf), f.where(), "the fill loop covers start..idx inclusive", key="C16.A5:fill")
+    U = used_bins(prog, it, T, small)
+    wbin = {}
+    for w in range(0, direct):
+        r = it.call("mi_bin", [AV(8 * w)])
+        wbin[w] = r.const()
+    ctx.cells += direct
+    def wsize(n):
+        return it.call("_mi_wsize_from_size", [AV(n)]).const()
+    for k in U:
+        size = T[k]
+        idx = wsize(size)
+        if idx <= 1:
+            start = 0
+        else:
+            b = it.call("mi_bin", [AV(size)]).const()
+            j = k - 1
+            while b == it.call("mi_bin", [AV(T[j])]).const() and j > 0:
+                j -= 1
+            start = 1 + wsize(T[j])
+            if start > idx:
+                start = idx
+        want = sorted(w for w in range(direct) if wbin[w] == k)
+        got = list(range(start, idx + 1))
+        ctx.check(R, got == want and idx < direct, f.where(), "bin %d (%d bytes): slots written %d..%d = {w : mi_bin(8w) = %d} = %s" % (k, size, start, idx, k, "%d..%d" % (want[0], want[-1]) if want else "∅"),
+                  key="C16.A5:bin:%d" % k)
+    g = prog.fn("_mi_heap_get_free_small_page")
+    ok = any(rl.is_call(g, g.strip(dd["init"]), "_mi_wsize_from_size") for _, dd in rl.local_decl(g, lambda dd: "init" in dd))
+    ctx.check(R, ok, g.where(), "the lookup indexes pages_free_direct with _mi_wsize_from_size(size)", key="C16.A5:lookup")
+    mb = prog.fn("mi_bin")
+    uses = [r for r in mb.refs(mb.param_id(0))]
+    ok = len(uses) == 1 and rl.is_call(mb, mb.up(uses[0]) if mb.up(uses[0]) is not None else uses[0], "_mi_wsize_from_size")
+    ctx.check(R, ok, mb.where(), "mi_bin depends on its argument only through _mi_wsize_from_size(size) (so the table can be keyed by word size)", key="C16.A5:wsize_only")
+    ctx.floor(R, 20)
 
 
 def a6(ctx, prog):
@@ -349,12 +428,34 @@ def a10(ctx, prog):
                 return True if r.lo == r.hi == e1 else (False if (r.hi < e1 or r.lo > e1) else None)
             res = prove(lambda cell, name=name: it.call(name, [AV(cell[0][0], cell[0][1]), AV(al)]), cells, post, budget=4000)
             run_ob(ctx, R, prog.fn(name).where(), "%s(n, %d) on %d boundary cells" % (name, al, len(cells)), "C16.A10:%s:%d" % (name, al), res)
+    # ∀ sz (any multiple-of-A base + residue v): align_up/align_down laws for power-of-two A, by K-aligned based values
+    for al in (16, 4096, 65536, 1 << 25):
+        k = al.bit_length() - 1
+        for name in ("_mi_align_up", "_mi_align_down"):
+            def ev(cell, name=name, k=k):
+                x = Based(k, AV(cell[0][0], cell[0][1], 64, True))
+                r = it.call(name, [x, AV(al)])
+                return (x, r)
+            def post(cell, xr, name=name):
+                x, r = xr
+                if not isinstance(r, Based) or r.dbase != 0:
+                    return None
+                lo, hi = cell[0]
+                if r.off.lo != r.off.hi:
+                    return None
+                v = r.off.lo
+                if name == "_mi_align_up":
+                    return True if (v % al == 0 and v >= hi and v - lo < al) else (False if v < lo else None)
+                return True if (v % al == 0 and v <= lo and hi - v < al) else (False if v > hi else None)
+            res = prove(ev, [((0, 0),), ((1, al - 1),), ((al, al),), ((al + 1, 2 * al - 1),)], post, budget=2000)
+            run_ob(ctx, R, prog.fn(name).where(), "∀ sz = B·%d + v: %s(sz, %d) is the multiple of %d %s sz (proved for every base B >= 1 and every residue v)" % (al, name, al, al, "at or above, less than A above" if name == "_mi_align_up" else "at or below, less than A below"),
+                   "C16.A10:forall:%s:%d" % (name, al), res)
     bits = prog.const("MI_BITMAP_FIELD_BITS")
     cells = [((c, c), (b, b)) for c in range(1, bits + 1) for b in range(0, bits + 1 - c) if (c in (1, 2, 31, 32, 33, 63, 64) or b in (0, 1, 31, 63 - c, 64 - c))]
     res = prove(lambda cell: it.call("mi_bitmap_mask_", [AV(cell[0][0]), AV(cell[1][0])]), cells,
                 lambda cell, r: True if r.lo == r.hi == (((1 << cell[0][0]) - 1) << cell[1][0]) else False, budget=20000)
     run_ob(ctx, R, prog.fn("mi_bitmap_mask_").where(), "mi_bitmap_mask_(count, bitidx) = ((2^count − 1) << bitidx) for %d (count,bitidx) pairs incl. the full-field case" % len(cells), "C16.A10:bitmap_mask", res)
-    ctx.floor(R, 13)
+    ctx.floor(R, 21)
 
 
 def a11(ctx, prog_dbg):
@@ -380,7 +481,7 @@ def run(ctx):
     ctx.assumptions = ["LP64 data model as reported by clang for this target", "_mi_os_page_size() ∈ {4 KiB, 16 KiB, 64 KiB} (A4 above the medium maximum is a sampled law, stated as such)"]
     prog = ctx.prog("REL")
     pad = prog.const("MI_PADDING_SIZE")
-    a1(ctx, prog, pad); a2(ctx, prog); a3(ctx, prog); a4(ctx, prog); a6(ctx, prog); a7(ctx, prog, ctx.tier); a8(ctx, prog); a9(ctx, prog); a10(ctx, prog)
+    a1(ctx, prog, pad); a2(ctx, prog); a3(ctx, prog); a4(ctx, prog); a5(ctx, prog); a6(ctx, prog); a7(ctx, prog, ctx.tier); a8(ctx, prog); a9(ctx, prog); a10(ctx, prog)
     if ctx.tier == "thorough":
         dbg = ctx.prog("DBG")
         a11(ctx, dbg)
